@@ -27,7 +27,7 @@ Optional == {"resources/subscribe", "resources/unsubscribe", "completion/complet
 PCommon == {"ok", "absent", "null", "array", "string", "number"}
 PKeyed == {"keyMissing", "keyNumber", "keyNull", "keyObject", "unknownEntry"}
 PCall == {"argsArray", "argsString", "argsNull", "argsMissing",
-          "h:error", "h:isError", "h:nil", "h:noContent", "h:unencodable"}
+          "h:error", "h:isError", "h:nil", "h:noContent", "h:unencodable", "h:ctxError"}
 PClasses(m) ==
   CASE m = "tools/call" -> PCommon \cup PKeyed \cup PCall \cup {"keyEmpty"}
     [] m = "prompts/get" -> PCommon \cup PKeyed \cup {"argsArray", "h:error", "h:nil"}
@@ -35,6 +35,7 @@ PClasses(m) ==
     [] m = "initialize" -> PCommon \cup {"keyMissing", "keyNumber", "keyNull"}
     [] m \in {"resources/subscribe", "resources/unsubscribe"} -> PCommon \cup PKeyed
     [] m = "completion/complete" -> PCommon \cup {"keyMissing", "keyNumber", "keyNull", "unknownEntry"}
+    [] m \in {"tools/list", "prompts/list", "resources/list"} -> PCommon \cup {"cursorNumber", "cursorNull", "cursorObject", "cursorUnknown"}
     [] OTHER -> PCommon
 
 NotFound == {"rpc:-32601", "rpc:-32602", "rpc:-32002"}
@@ -49,14 +50,14 @@ Expect(m, pc) ==
   ELSE IF m = "resources/templates/list" THEN       \* not among the methods every transport serves (stdio: -32601)
          IF pc \in {"ok", "absent", "null"} THEN {"result", "rpc:-32601"} ELSE {"result", "rpc:-32602", "rpc:-32601"}
   ELSE IF m \notin NeedsParams THEN
-         IF pc \in {"ok", "absent", "null"} THEN {"result"} ELSE {"result", "rpc:-32602"}
+         IF pc \in {"ok", "absent", "null"} THEN {"result"} ELSE {"result", "rpc:-32602"}       \* incl. the cursor classes
   ELSE CASE pc = "ok" -> {"result"}
          [] pc \in {"absent", "null", "array", "string", "number"} -> {"rpc:-32602"}
          [] pc \in {"keyMissing", "keyNumber", "keyNull", "keyObject", "keyEmpty"} -> {"rpc:-32602"}
          [] pc = "unknownEntry" -> NotFound
          [] pc \in {"argsArray", "argsString"} -> {"rpc:-32602"}
          [] pc \in {"argsNull", "argsMissing"} -> {"result"}
-         [] pc = "h:error" -> {"rpc:-32603"}
+         [] pc \in {"h:error", "h:ctxError"} -> {"rpc:-32603"}
          [] pc \in {"h:isError", "h:multi"} -> {"result"}
          [] pc \in {"h:nil", "h:noContent", "h:nilItem"} -> {"result", "rpc:-32603"}   \* a served result still has to fit MsgGrammar
          [] pc = "h:unencodable" -> {"rpc:-32603"}
